@@ -170,3 +170,23 @@ func And(a, b bool) bool     { return a && b }
 func Or(a, b bool) bool      { return a || b }
 func Not(a bool) bool        { return !a }
 func Implies(a, b bool) bool { return !a || b }
+
+// SetJSONSize makes json.Marshal(obj) exactly size bytes long. Under the executor the size is a symbolic value
+// attached to the map; natively the map is padded with a "pad" entry (size must be large enough).
+func SetJSONSize(obj map[string]interface{}, size int64) {
+	obj["pad"] = ""
+	b, err := json.Marshal(obj)
+	if err != nil {
+		panic(err)
+	}
+	n := int(size) - len(b)
+	if n < 0 {
+		Mismatch = append(Mismatch, fmt.Sprintf("SetJSONSize: object already has %d bytes, cannot shrink to %d", len(b), size))
+		return
+	}
+	pad := make([]byte, n)
+	for i := range pad {
+		pad[i] = 'x'
+	}
+	obj["pad"] = string(pad)
+}
